@@ -36,6 +36,8 @@ def _case(draw, max_nodes):
     # optional non-conflicting injection of an intermediate value (only consulted when the validator accepts it)
     c["inject"] = draw(st.booleans()) and prob(draw, 0.3)
     c["inject_pick"] = draw(st.integers(0, 31))
+    # the same program with its functions declared under swapped parameter names and renamed back in one call
+    c["declared_swapped"] = prob(draw, 0.3)
     return c
 
 
@@ -84,7 +86,7 @@ def _oracle(tag, case, out, ctx, env, args, ss, select, allow_extra=frozenset())
 def check_case(case, ev):
     nodes = case["nodes"]
     select = case.get("select")
-    gspec = {"nodes": nodes, "bind": case["bind"], "select": select}
+    gspec = {"nodes": gen.present(nodes, "swap", keep_fid=True) if case.get("declared_swapped") else nodes, "bind": case["bind"], "select": select}
     env, args, values, bound = _expected(case)
     ss = ref.single_shot(nodes, values, bound)
     labels, nedges = ref.shape_labels(nodes)
@@ -97,6 +99,8 @@ def check_case(case, ev):
         labels.add("select")
     if any("ret" in n for n in nodes):
         labels.add("falsy_or_None_output")
+    if case.get("declared_swapped") and any(len(n["params"]) >= 2 for n in nodes):
+        labels.add("declared_under_swapped_parameter_names")
 
     for flavour, runner in (("sync", "sync"), ("sync", "async"), ("async", "async")):
         ctx = Ctx()
